@@ -21,7 +21,7 @@ SHIM_C = r"""
 #include <string.h>
 #include <sys/socket.h>
 
-/* line:  N:<name hex> <flags decimal> <addr> <netmask> <broadaddr/dstaddr>
+/* line:  N:x<name hex> <flags decimal> <addr> <netmask> <broadaddr/dstaddr>
    sockaddr token:  -                         NULL
                     L:<hatype>:<ifindex>:<hex of the hardware address>      AF_PACKET, sll_halen = number of bytes
                     4:<8 hex>                 AF_INET
@@ -101,12 +101,17 @@ int getifaddrs(struct ifaddrs **out) {
     while (fgets(line, sizeof line, f) != NULL) {
         char name[600], a[1200], m[1200], b[1200];
         unsigned flags = 0;
-        if (sscanf(line, "N:%599s %u %1199s %1199s %1199s", name, &flags, a, m, b) != 5) {
-            /* empty name: "N: ..." */
-            name[0] = 0;
-            if (sscanf(line, "N: %u %1199s %1199s %1199s", &flags, a, m, b) != 4)
+        /* the name token is "N:x<hex>", possibly with no hex digits at all (empty name) */
+        if (strncmp(line, "N:x", 3) != 0)
+            continue;
+        const char *p = line + 3;
+        name[0] = 0;
+        if (*p == ' ') {
+            if (sscanf(p, " %u %1199s %1199s %1199s", &flags, a, m, b) != 4)
                 continue;
         }
+        else if (sscanf(p, "%599s %u %1199s %1199s %1199s", name, &flags, a, m, b) != 5)
+            continue;
         unsigned char raw[300];
         size_t n = unhex(name, raw, 299);
         struct ifaddrs *ifa = calloc(1, sizeof *ifa);
@@ -185,7 +190,7 @@ def build(workdir):
 
 def describe(records):
     """records: list of dicts {name: hex, flags: int, addr/mask/baddr: token} -> file content"""
-    return "".join("N:%s %d %s %s %s\n" % (r["name"], r["flags"], r["addr"], r["mask"], r["baddr"]) for r in records)
+    return "".join("N:x%s %d %s %s %s\n" % (r["name"], r["flags"], r["addr"], r["mask"], r["baddr"]) for r in records)
 
 
 def run(so, workdir, records, timeout=60):
